@@ -124,7 +124,7 @@ theorem retarget_one_clean (w : W) (lost : List Nat) (view : AppJobs) (c : Comma
 /-- `on_command_added` never raises: the instance it gives a command is taken among the selected ones that know the program
     (`get_applicable_identifiers`, repair a6190c1), so `update_identifier` finds its information.  This is what makes the fallback
     branch of `retargetCmds` (model only) unreachable. -/
-theorem onCommandAdded_never_raises (w : W) (j : AppJobs) (c : Command) : ∃ c', onCommandAdded w j c = .ok c' := by
+theorem C10_on_command_added_never_raises (w : W) (j : AppJobs) (c : Command) : ∃ c', onCommandAdded w j c = .ok c' := by
   unfold onCommandAdded
   split
   · exact ⟨_, rfl⟩
